@@ -96,12 +96,12 @@ Definition kA_cz : TA := (kopp oA (kq oA 1 3), k0 oA).                         (
 Definition kA_ccz : TA := (k0 oA, kmul oA a_r2 (kq oA 1 12)).                  (* i sqrt 2 / 12 *)
 Definition kB_czh : TB := (kq oB 1 4, k0 oB).                                  (* 1/4 *)
 
-Definition gA_CZ := gate_CZ oA a_r2 a_r3i.
-Definition gA_CNOT := gate_CNOT oA a_h a_r2 a_r3i.
-Definition gA_CCZ := gate_CCZ oA a_h a_r2 a_r3i a_r7.
-Definition gA_CCNOT := gate_CCNOT oA a_h a_r2 a_r3i a_r7.
-Definition gB_CZH := gate_CZ_Heralded oB b_h b_r2 b_qi b_g.
-Definition gB_CNOTH := gate_CNOT_Heralded oB b_h b_r2 b_qi b_g.
+Notation gA_CZ := (gate_CZ oA a_r2 a_r3i).
+Notation gA_CNOT := (gate_CNOT oA a_h a_r2 a_r3i).
+Notation gA_CCZ := (gate_CCZ oA a_h a_r2 a_r3i a_r7).
+Notation gA_CCNOT := (gate_CCNOT oA a_h a_r2 a_r3i a_r7).
+Notation gB_CZH := (gate_CZ_Heralded oB b_h b_r2 b_qi b_g).
+Notation gB_CNOTH := (gate_CNOT_Heralded oB b_h b_r2 b_qi b_g).
 
 Lemma kA_cz_norm : kmul cA (kofZ cA 9) (kmul cA kA_cz (kconj cA kA_cz)) = k1 cA.
 Proof. apply (@by_eqb _ cA cA_unit). vm_compute. reflexivity. Qed.
@@ -195,6 +195,27 @@ Proof.
   - split; [exact (@acts_as_intro _ oB oB_star oB_unit _ _ _ _ _ kB_czh_norm tab_CNOTH1)|].
     intros gt Hg. exact (@check_leak_sound _ oB oB_star oB_unit _ _ gt leak_CNOTH1 Hg).
 Qed.
+
+(* both claims about one compiled heralded gate *)
+Definition heralded_acts {K} (o : ops K) (g : res (@gate K)) (nq : nat) (norm : Z)
+           (M : list bool -> list bool -> K * K) : Prop :=
+  exists gt k, g = Ok gt /\
+    kmul (cplx o) (kofZ (cplx o) norm) (kmul (cplx o) k (kconj (cplx o) k)) = k1 (cplx o) /\
+    (forall b b', In b (bits nq) -> In b' (bits nq) ->
+       sim_amp o gt (dr b) (dr b') = Ok (kmul (cplx o) k (M b' b), 1)) /\
+    (forall b t, In b (bits nq) -> In t (zstates (2 * nq) nq) -> undr t = None ->
+       exists f, sim_amp o gt (dr b) t = Ok (k0 (cplx o), f)).
+
+Lemma heralded_intro {K} (o : ops K) g nq norm M :
+  acts_as o g nq norm M /\ no_leak o g nq -> heralded_acts o g nq norm M.
+Proof.
+  intros [[gt [k [Hg [Hk Ht]]]] Hl]. exists gt, k. repeat (split; [assumption|]). exact (Hl gt Hg).
+Qed.
+
+Lemma CZH_full : heralded_acts oB gB_CZH 2 16 (spec_CZ cB).
+Proof. exact (heralded_intro oB _ _ _ _ CZH_acts). Qed.
+Lemma CNOTH_full tq : In tq [0; 1]%Z -> heralded_acts oB (gB_CNOTH tq) 2 16 (spec_CNOT cB (Z.to_nat tq)).
+Proof. intros H. exact (heralded_intro oB _ _ _ _ (CNOTH_acts tq H)). Qed.
 
 (* invalid targets are rejected with ValueError, for every scalar type *)
 Lemma bad_target {K} (o : ops K) h r2 r3i qi g r7 tq :
